@@ -36,8 +36,20 @@ def gen_domain(rng, small=False):
     if N * dr < 4.0:
         dr = rng.choice([0.2, 0.25, 0.3])
     if rng.random() < 0.25:
-        return {'length': N, 'via': 'dk', 'value': math.pi / (dr * N)}
-    return {'length': N, 'via': 'dr', 'value': dr}
+        dom = {'length': N, 'via': 'dk', 'value': math.pi / (dr * N)}
+    else:
+        dom = {'length': N, 'via': 'dr', 'value': dr}
+    if rng.random() < 0.25:
+        # the user did not construct the Domain in its final form: it was built with another length and resized in place
+        # (length setter last), or built with another spacing that was then assigned
+        if rng.random() < 0.6:
+            N0 = rng.choice([n for n in (16, 32, 64, 128, 240, 256, 100) if n != N])
+            v0 = dom['value'] if dom['via'] == 'dr' else dom['value'] * N / N0
+            dom['history'] = {'start': {'length': N0, 'via': dom['via'], 'value': v0}, 'steps': [['length', N]]}
+        else:
+            other = rng.choice([0.05, 0.1, 0.2, 0.3])
+            dom['history'] = {'start': {'length': N, 'via': rng.choice(['dr', 'dk']), 'value': other}, 'steps': [[dom['via'], dom['value']]]}
+    return dom
 
 
 def domain_dr(dom):
@@ -176,23 +188,47 @@ def refgrid(spec):
 
 # ----------------------------------------------------------------------------- builders
 def make_domain(pp, dom):
-    return pp.Domain(length=dom['length'], **{dom['via']: dom['value']})
+    h = dom.get('history')
+    if not h:
+        return pp.Domain(length=dom['length'], **{dom['via']: dom['value']})
+    st = h['start']
+    d = pp.Domain(length=st['length'], **{st['via']: st['value']})
+    for attr, val in h['steps']:
+        setattr(d, attr, val)
+    return d
 
 
 def potential_sigma(spec, a, b):
     """length scale of the pair's potential: its own if the user gave one, else the contact distance"""
     p = spec['pairs'][pkey(a, b)]
+    if p.get('potential_sigma_abs') is not None:
+        return p['potential_sigma_abs']      # given explicitly at construction and kept through later diameter edits
     f = p.get('potential_sigma_factor')
     return sigma_ab(spec, a, b) * f if f else sigma_ab(spec, a, b)
+
+
+def freeze_explicit_sigmas(spec):
+    """a potential constructed with an explicit sigma keeps it when the diameters are edited later"""
+    for (a, b) in pairs(spec['types']):
+        p = spec['pairs'][pkey(a, b)]
+        if (p.get('explicit_sigma') or p.get('potential_sigma_factor')) and p.get('potential_sigma_abs') is None:
+            p['potential_sigma_abs'] = potential_sigma(spec, a, b)
+
+
+def core_radius(spec, a, b):
+    """distance below which the pair has a hard core: the closure's contact distance when the closure carries the
+    hard-core flag, else (hard potential closed with PY/HNC) the potential's own sigma"""
+    p = spec['pairs'][pkey(a, b)]
+    if p['closure']['hc']:
+        return sigma_ab(spec, a, b)
+    return potential_sigma(spec, a, b)
 
 
 def make_potential(pp, spec, a, b):
     p = spec['pairs'][pkey(a, b)]
     kw = dict(p['potential']['kw'])
-    if p.get('potential_sigma_factor'):
+    if p.get('potential_sigma_factor') or p.get('potential_sigma_abs') is not None or p.get('explicit_sigma'):
         kw['sigma'] = potential_sigma(spec, a, b)
-    elif p.get('explicit_sigma'):
-        kw['sigma'] = sigma_ab(spec, a, b)
     return getattr(pp.potential, p['potential']['cls'])(**kw)
 
 
@@ -244,14 +280,14 @@ def build_system(pp, spec):
     prs = pairs(types)
     a0, b0 = prs[0]
     p0 = spec['pairs'][pkey(a0, b0)]
-    plain0 = not p0.get('explicit_sigma') and not p0.get('potential_sigma_factor')
+    plain0 = not p0.get('explicit_sigma') and not p0.get('potential_sigma_factor') and p0.get('potential_sigma_abs') is None
     if bulk.get('potential') and plain0:
         s.potential[types, types] = make_potential(pp, spec, a0, b0)
     if bulk.get('closure'):
         s.closure[types, types] = make_closure(pp, p0['closure'])
     for (a, b) in prs:
         p = spec['pairs'][pkey(a, b)]
-        plain = not p.get('explicit_sigma') and not p.get('potential_sigma_factor')
+        plain = not p.get('explicit_sigma') and not p.get('potential_sigma_factor') and p.get('potential_sigma_abs') is None
         if not (bulk.get('potential') and plain0 and plain and p['potential'] == p0['potential']):
             s.potential[a, b] = make_potential(pp, spec, a, b)
         if not (bulk.get('closure') and p['closure'] == p0['closure']):
